@@ -113,6 +113,9 @@ def cuts_for(case: t.Dict[str, t.Any], n: int) -> t.List[int]:
     if case["mode"] == "one" or n == 0:
         return []
     if case["mode"] == "bytes":
+        if n > 1200:  # byte-wise delivery re-parses the buffer on every call: keep long streams affordable
+            step = n // 600 + 1
+            return list(range(1, n, step))
         return list(range(1, n))
     cuts = sorted(c % (n + 1) for c in case["cuts"])
     for d in case["dup"]:
